@@ -17,6 +17,8 @@ package corr
 //   timed-par / timed-ser scripted-driver runs with per-call durations of both real engines vs the Lean timed
 //                        model (result, finish time, send times must agree exactly).
 //   e2e                  runE2eProbeOnce over scripted runs vs Spec.e2eSpec.
+//   e2e-real             the real runE2eProbeOnce → runTracerouteOnce → driver + engine over the NewSourceSink
+//                        seam; the sample must be the scripted delay of the destination's answer, 0 without one.
 
 import (
 	"context"
@@ -1072,6 +1074,91 @@ func c05RunE2e(rep *hx.Report, orc *hx.Oracle, rng *hx.RNG, n int, t *testing.T)
 	}
 }
 
+// c05RealE2e: the real runE2eProbeOnce → real runTracerouteOnce → real driver + engine over the
+// packets.NewSourceSink seam, with a network that answers the single probe after a scripted delay.
+func c05RealE2e(t *testing.T, rep *hx.Report, rng *hx.RNG, n int) {
+	target := netip.MustParseAddr("192.0.2.9")
+	pick := func(kind string, v6 bool, name string) replyForm {
+		for _, f := range catalogueFor(kind, v6) {
+			if f.Name == name {
+				return f
+			}
+		}
+		return replyForm{}
+	}
+	destForm := map[string]replyForm{"icmp": pick("icmp", false, "echo"), "udp": pick("udp", false, "du/code3a"), "tcp": pick("tcp", false, "synack")}
+	skipped := 0
+	for i := 0; i < n; i++ {
+		proto := []string{"icmp", "udp", "tcp"}[i%3]
+		mode := []string{"dest", "dest", "router", "silent"}[rng.Intn(4)]
+		maxTTL := rng.Range(1, 64)
+		d := time.Duration(rng.Range(4, 2500))*time.Millisecond + time.Duration(2*rng.Range(0, 400)+1)*time.Microsecond
+		var sample float64
+		var rerr error
+		var ttls []int
+		synctest.Test(t, func(t *testing.T) {
+			w := &bwWire{}
+			w.Configure = func(idx int, addr netip.Addr, src *bwSource, snk *bwSink) {
+				snk.OnWrite = func(p bwPacket) {
+					h := bwParse(p.Data)
+					if !h.OK || h.V6 || len(p.Data) < 28 {
+						return
+					}
+					ttls = append(ttls, h.TTL)
+					local, _ := netip.AddrFromSlice(p.Data[12:16])
+					ihl := int(p.Data[0]&0xf) * 4
+					fl := flowInfo{Local: local, Target: target}
+					if proto != "icmp" {
+						fl.LPort = uint16(p.Data[ihl])<<8 | uint16(p.Data[ihl+1])
+						fl.TPort = uint16(p.Data[ihl+2])<<8 | uint16(p.Data[ihl+3])
+					}
+					var reply []byte
+					switch mode {
+					case "dest":
+						reply = destForm[proto].encode(fl, p.Data, target, h.TTL, seqOfProbe(p.Data))
+					case "router":
+						reply = pick(proto, false, "te/qfull").encode(fl, p.Data, netip.MustParseAddr("10.9.8.7"), h.TTL, seqOfProbe(p.Data))
+					}
+					if reply != nil {
+						time.AfterFunc(d, func() { src.Inject(reply) })
+					}
+				}
+			}
+			defer bwInstall(w)()
+			params := traceroute.TracerouteParams{Hostname: target.String(), Port: 33434, Protocol: proto, MinTTL: 1, MaxTTL: maxTTL, Delay: 50,
+				Timeout: 3 * time.Second, TCPMethod: traceroute.TCPMethod("syn"), TracerouteQueries: 1, E2eQueries: 1}
+			sample, rerr = traceroute.VerifE2eProbeOnce(context.Background(), params, 33434)
+		})
+		if rerr != nil && len(ttls) == 0 {
+			skipped++ // no route / no permission in this environment: capability, not a violation
+			continue
+		}
+		want := 0.0
+		if mode == "dest" {
+			want = float64(int64(d)) / 1e6
+		}
+		smp := map[string]any{"stream": "e2e-real", "protocol": proto, "max_ttl": maxTTL, "network": mode, "reply_delay": d.String(),
+			"impl_sample_ms": sample, "impl_error": fmt.Sprint(rerr), "probe_ttls": ttls, "spec_ms": want}
+		rep.Case("e2e-real", fmt.Sprint(proto, maxTTL, mode, d), mode == "dest", smp)
+		rep.Hit("e2e-real:" + proto + "/" + mode)
+		bad := ""
+		switch {
+		case rerr != nil:
+			bad = "end-to-end probe failed on a well-behaved network: " + rerr.Error()
+		case len(ttls) != 1 || ttls[0] != maxTTL:
+			bad = fmt.Sprintf("end-to-end probe wrote probes with TTLs %v instead of one probe with TTL %d", ttls, maxTTL)
+		case math.Abs(sample-want) > 1e-9*math.Max(want, 1e-300):
+			bad = fmt.Sprintf("end-to-end sample %v ms, the destination answered after %v ms (0 = no destination answer)", sample, want)
+		}
+		if bad != "" {
+			rep.Violate(hx.Violation{Kind: "spec", What: bad, Sig: map[string]string{"stream": "e2e-real", "protocol": proto}, Replay: smp})
+		}
+	}
+	if skipped > 0 {
+		rep.Note("e2e-real: %d of %d runs could not start in this environment (no local address / route for 192.0.2.9) and were skipped", skipped, n)
+	}
+}
+
 // ---------------------------------------------------------------------------------------------
 
 func TestC05(t *testing.T) {
@@ -1079,7 +1166,7 @@ func TestC05(t *testing.T) {
 	rep := hx.NewReport("C05", env, "wire-*: one case = one full run of a real driver under a real engine over the in-memory wire with a scripted network "+
 		"(30 hops, 3 s timeout, 50/10 ms spacing) inside a synctest bubble, non-trivial = the run returned hops and at least one reply was accepted, "+
 		"distinct by configuration + reply script; timed-*: one scripted-driver run of a real engine compared with the Lean timed model, non-trivial = non-empty script; "+
-		"e2e: one runE2eProbeOnce call over a scripted run, non-trivial = the run returned hops")
+		"e2e: one runE2eProbeOnce call over a scripted run, non-trivial = the run returned hops; e2e-real: one real runE2eProbeOnce over the simulated wire, non-trivial = the destination answered")
 	defer rep.Write()
 	rng := hx.NewRNG(env.Seed ^ 0xC05)
 	orc := hx.NewOracle()
@@ -1131,6 +1218,7 @@ func TestC05(t *testing.T) {
 
 	// end-to-end
 	c05RunE2e(rep, orc, rng, env.Scale(2000, 30000), t)
+	c05RealE2e(t, rep, rng, env.Scale(300, 3000))
 
 	if rep.Failed() {
 		t.Fail()
